@@ -9,6 +9,7 @@ Line protocol for the C15 model (one s-expression in, one out):
   (checktrace CNF N0 PROOFS)    -> T | F
   (checkproofs CNF PROOFS)      -> T | F             (CNF = the input; learned clauses are rebuilt)
   (tseitin FORM (n ...) (FORM ...)) -> CNF | none   (extra used names; the subterm numbering)
+  (zcheck CNF ((tok ...) ...))  -> T | F             (zChaff trace given as the tokens of its lines)
   (macro-resolve C1 C2)         -> CLAUSE | none     (logic.resolution on two clauses)
   (zreplay CNF ((i ...) ...))   -> CNF | none        (replay loop of zChaff.solve / proofrec.solve_cnf)
   (tseitin-hyps FORM (n ...) (FORM ...)) -> (FORM ...) | none   (hypotheses of encode's theorem)
@@ -101,6 +102,13 @@ def handle (line : String) : String :=
       | some c => toString (cnfTo c)
       | none => "none"
     | _, _, _ => "bad-op"
+  | some (.list [.atom "zcheck", cnf, lines]) =>
+    match cnfOf cnf, (do (← lines.toList?).mapM (fun l => do (← l.toList?).mapM (fun t =>
+        match t with
+        | .atom a => some (match a.toNat? with | some n => ZTok.num n | none => ZTok.word a)
+        | _ => none))) with
+    | some c, some ls => toString (Sexp.ofBool (zCheckLines c ls))
+    | _, _ => "bad-op"
   | some (.list [.atom "macro-resolve", c1, c2]) =>
     match clauseOf c1, clauseOf c2 with
     | some a, some b =>
